@@ -201,7 +201,7 @@ func rulesC04(w *World, o *Out) {
 		}
 		// global accumulator: the false edge must lead to an error return
 		okE := false
-		for _, b := range ve.Blocks {
+		for _, b := range unitBlocks(ve) {
 			for _, f := range DomFacts(b) {
 				if f.Kind == FFalse && canon(f.V) == ssa.Value(s.Value()) {
 					if r, ok := b.Instrs[len(b.Instrs)-1].(*ssa.Return); ok {
@@ -216,7 +216,7 @@ func rulesC04(w *World, o *Out) {
 	}
 	// group key from BytesToHash
 	nKey := 0
-	for _, b := range ve.Blocks {
+	for _, b := range unitBlocks(ve) {
 		for _, in := range b.Instrs {
 			if mu, ok := in.(*ssa.MapUpdate); ok {
 				nKey++
